@@ -10,7 +10,7 @@ LEVEL = "proof"
 RULE = ("case = (sink, history) with sink in output-function / descriptor (packet-mode pipe, one packet per write(2)) / both / "
         "neither and history over set_output_func (set / remove), set_output_fd (set / remove),  set_output_buffer(n), flush, tickit_termdrv_write_str (explicit length, length 0 = strlen, "
         "length shorter than the string), tickit_termdrv_write_strf, tickit_term_print, set_output_func, set_output_fd; a final "
-        "flush is appended. Observation = the chunks delivered during each operation, each tagged with the sink that received it (bytes, boundaries, sink). Exhaustive part: "
+        "flush is NOT appended: every case ends with the last unref (tickit_term_destroy), which must deliver what is pending; also tickit_term_teardown, set_output_buffer with sizes whose malloc fails (unbuffered), descriptor = fd 0. Observation = the chunks delivered during each operation, each tagged with the sink that received it (bytes, boundaries, sink). Exhaustive part: "
         "buffer sizes 0..6 x up to 4 writes of lengths 0..8 x every flush mask (flush or not after each write), all bytes of a "
         "history distinct; plus sizes 0..6 x 2 writes x 5 call variants each x lengths 0..8 x flush masks. Random part: sizes "
         "around 1..10, 63..65, 4095..4097 and up to 10000, write lengths aimed at space-1/space/space+1, whole multiples of the "
@@ -108,13 +108,64 @@ def gen(tier, seed, info):
                 q += 1
                 yield " ".join([sink, "B%d" % cap, write_tok("R", lens[0], 0), "F", c1,
                                 write_tok("R", lens[1], 50), "F", c2, write_tok("R", lens[2], 100)])
+    # exhaustive 4: rarely used entry points
+    #  (a) buffer sizes whose allocation fails (SIZE_MAX, SIZE_MAX-4096, SIZE_MAX/2+2): the terminal
+    #      must behave as unbuffered, also after having had a real buffer
+    e = 0
+    for sink in "fd":
+        for big in ("BX0", "BX1", "BX2"):
+            for lens in itertools.product(range(5), repeat=2):
+                for mask in range(4):
+                    for pre in ([], ["B3", "R2:90", "F"]):
+                        e += 1
+                        toks = [sink] + pre + [big]
+                        a = 0
+                        for i, ln in enumerate(lens):
+                            toks.append(write_tok("RWPST"[(i + ln) % 5], ln, a)); a += 7 * ln
+                            if mask >> i & 1:
+                                toks.append("F")
+                        yield " ".join(toks + ["B2", "R3:200"])
+    #  (b) explicit teardown followed by more output and the last unref (every case ends with the
+    #      destruction of the terminal and no flush before it)
+    for sink in "fdb":
+        for cap in range(5):
+            for lens in itertools.product(range(4), repeat=3):
+                for shape in (("W", "X", "W"), ("W", "X", "W", "X", "W"), ("X", "W", "W"), ("W", "F", "X", "W"),
+                              ("W", "X", "O1" if sink != "d" else "D1", "W")):
+                    e += 1
+                    toks, a, i = [sink, "B%d" % cap], 0, 0
+                    for t in shape:
+                        if t == "W":
+                            toks.append(write_tok("R", lens[i], a)); a += 7 * lens[i] + 1; i += 1
+                        else:
+                            toks.append(t)
+                    yield " ".join(toks)
+    #  (c) the descriptor is fd 0 (what TICKIT_OPEN_STDTTY uses): alone, beside a function, set later
+    for sink, pre in (("z", []), ("w", []), ("n", ["D2"]), ("w", ["O0"]), ("f", ["D2", "O0"])):
+        for cap in range(5):
+            for lens in itertools.product(slens, repeat=2):
+                for mask in range(4):
+                    e += 1
+                    toks = [sink] + pre + ["B%d" % cap]
+                    a = 0
+                    for i, ln in enumerate(lens):
+                        toks.append(write_tok("R", ln, a)); a += 7 * ln
+                        if mask >> i & 1:
+                            toks.append("F")
+                    yield " ".join(toks)
+    q += e
     info["exhaustive"] = True
-    info["sink_scope_cases"] = q
+    info["entry_point_scope_cases"] = e
+    info["sink_scope_cases"] = q - e
     info["exhaustive_scope"] = ("buffer sizes 0..6 x k<=4 writes (explicit length) of lengths 0..8 x all 2^k flush masks (%d cases); "
                                 "sizes 0..6 x 2 writes x 5x5 call variants x lengths 0..8 x 4 flush masks (%d cases); "
                                 "sink configurations f / d / both (builder) / both set later in either order x sizes 0..4 x 2 writes of "
                                 "lengths {0,1,2,3,4,5,7} x flush masks, and 8 sequences of two sink changes (function or descriptor "
-                                "removed / added, active sink changing or not) after flushes x sizes 0..4 x 3 writes of 0..5 bytes (%d cases)"
+                                "removed / added, active sink changing or not) after flushes x sizes 0..4 x 3 writes of 0..5 bytes; "
+                                "failed allocations (3 sizes near SIZE_MAX) x f/d x with/without a previous real buffer x 2 writes of 0..4 x flush masks; "
+                                "teardown histories (5 shapes of write/teardown/flush/set-sink) x f/d/both x sizes 0..4 x writes of 0..3 bytes, every "
+                                "case ending with the destruction of the terminal and no flush before it; descriptor = fd 0 in 5 configurations x "
+                                "sizes 0..4 x 2 writes x flush masks (%d cases)"
                                 % (n, m, q))
     info["exhaustive_cases"] = n + m + q
     rnd = random.Random(seed * 7919 + 11)
@@ -170,8 +221,14 @@ def gen(tier, seed, info):
                     toks.append("F")
                 cap = min(pick_cap(big), maxcap)
                 toks.append("B%d" % cap); pend = 0
-            elif r < 0.95:
-                toks.append("O" if sink in "fb" else "D")
+            elif r < 0.93:
+                toks.append("O" if sink in "fbw" else "D")
+            elif r < 0.96:
+                toks.append("X"); pend = 0
+            elif r < 0.975:
+                if pend and not allow_pending_resize:
+                    toks.append("F")
+                toks.append(rnd.choice(["BX0", "BX1", "BX2"])); cap = 0; pend = 0
             else:
                 toks.append("F"); toks.append("F"); pend = 0
         return " ".join(toks)
@@ -195,18 +252,20 @@ def gen(tier, seed, info):
                 yield history(cap, lens, mask, sink="d")
     for _ in range(nfd):
         kinds["descriptor"] += 1
-        yield random_history("d", big=True, maxlen=4000, maxchunks=150, maxcap=4096)
+        yield random_history(rnd.choice("dddzw"), big=True, maxlen=4000, maxchunks=150, maxcap=4096)
     # both sinks / sink changes (random): reconfiguration after a flush (in scope) or with bytes
     # pending (outside the property: model comparison only)
     def mixed_history(in_scope):
-        sink = rnd.choice("bbbfdn")
-        func, fd = sink in "fb", sink in "db"
+        sink = rnd.choice("bbbfdnwz")
+        func, fd = sink in "fbw", sink in "dbwz"
         cap = min(pick_cap(False), 300)
         toks = [sink, "B%d" % cap]
         pend, a = 0, rnd.randint(0, 254)
         for _ in range(rnd.randint(2, 12)):
             r = rnd.random()
-            if r < 0.5:
+            if r < 0.04:
+                toks.append("X"); pend = 0
+            elif r < 0.5:
                 ln = min(pick_len(cap, pend, False, 600), 600)
                 if cap and ln // cap > 150:
                     ln = cap * 150
@@ -221,14 +280,14 @@ def gen(tier, seed, info):
                 cap = min(pick_cap(False), 300)
                 toks.append("B%d" % cap); pend = 0
             else:
-                t = rnd.choice(["O0", "O1", "D0", "D1"])
+                t = rnd.choice(["O0", "O1", "D0", "D1", "D2"])
                 if in_scope and (pend or not (func or fd)):
                     toks.append("F"); pend = 0
                 toks.append(t)
                 if t[0] == "O":
                     func = t[1] == "1"
                 else:
-                    fd = t[1] == "1"
+                    fd = t[1] != "0"
         return " ".join(toks)
     for _ in range(4000 if quick else 150000):
         if rnd.random() < 0.8:
@@ -263,10 +322,14 @@ def classify(case, obs):
     for t in toks[1:]:
         k = t[0]
         if k == "B":
+            if t[1] == "X":
+                cap, pend = 0, 0
+                sig.append((t,))
+                continue
             c = int(t[1:]); cap, pend = c, 0
             sig.append(("B", 0 if c == 0 else 1 if c == 1 else 2))
-        elif k in "FOD":
-            sig.append((t, pend > 0)); pend = 0 if k == "F" else pend
+        elif k in "FODX":
+            sig.append((t, pend > 0)); pend = 0 if k in "FX" else pend
         else:
             ln = _oplen(t)
             wrote = wrote or ln > 0
@@ -287,7 +350,7 @@ def shrink(case):
         yield " ".join(toks[:i] + toks[i + 1:])
     for i in range(1, len(toks)):
         t = toks[i]
-        if t[0] == "B" and int(t[1:]) > 0:
+        if t[0] == "B" and t[1] != "X" and int(t[1:]) > 0:
             for v in (int(t[1:]) - 1, int(t[1:]) // 2):
                 yield " ".join(toks[:i] + ["B%d" % v] + toks[i + 1:])
         elif t[0] in "RQ":
